@@ -98,6 +98,28 @@ def build_wsgi(spec, rec, trace):
                     trace.ev("app", "wsgi-yield", total=total)
                     yield bytes([65 + k % 26]) * size
             return stream()
+        if shape in ("exc_info_replace", "exc_info_replace_lazy"):
+            # PEP 3333: "start_response may be called again with exc_info to replace a response that has not been sent yet" - the way an
+            # application turns a failure into an error page of its own.  What reaches the client is the second response, whole.
+            import sys as _sys
+
+            def again():
+                try:
+                    raise RuntimeError("failure while producing the first response")
+                except RuntimeError:
+                    start_response(status, headers, _sys.exc_info())
+
+            if shape == "exc_info_replace":
+                start_response("200 OK", [("X-First", "discarded")])
+                again()
+                return list(chunks)
+
+            def gen3():
+                start_response("200 OK", [("X-First", "discarded")])
+                again()
+                for c in chunks:
+                    yield c
+            return gen3()
         if shape == "raise_before":
             raise RuntimeError("wsgi failure before start_response")
         if shape == "no_start":
